@@ -78,7 +78,8 @@ class C11(Prop):
                 out.append(V("C11.padding-too-long", "%d octets follow the scoped PDU (block %d)" % (pad, block), alg=palg))
             lens.append((len(plain) - pad) % 16)
             # the plaintext is the request of this call
-            want = _expected_request(res, n)
+            pre = getattr(tr, "pre", 0)
+            want = (("get",), []) if n < pre else _expected_request(res, n - pre)
             if want is not None:
                 t, oids = want
                 if sc["pdu"]["type"] not in t or (oids is not None and list(sc["pdu"]["varbinds"]) != oids):
